@@ -166,10 +166,16 @@ func ucipos(args []string) {
 	n := fs.Int("n", 50, "sessions")
 	maxCmds := fs.Int("cmds", 5, "maximum commands per session")
 	path := fs.String("out", "", "output ndjson")
+	api := fs.Bool("api", false, "drive Engine.Reset/Move/TakeBack directly instead of the UCI driver")
 	_ = fs.Parse(args)
 	r := rand.New(rand.NewSource(*seed))
 	w := out.Create(*path)
 	ctx := context.Background()
+	if *api {
+		engineAPI(ctx, r, w, *n, *maxCmds)
+		w.Close()
+		return
+	}
 	all := corpus.All()
 	tmo := 60 * time.Second // generous: a loaded machine must not look like a hung driver
 
@@ -275,4 +281,65 @@ func ucipos(args []string) {
 		}
 	}
 	w.Close()
+}
+
+// engineAPI drives the engine the way the console driver and a library user do: Reset, Move and
+// TakeBack called directly, with Position() and the board read after every call (also after the
+// calls that fail).
+func engineAPI(ctx context.Context, r *rand.Rand, w *out.Writer, n, maxOps int) {
+	all := corpus.All()
+	gg := gen.New(r.Int63(), nil, gen.Flags{})
+	for i := 0; i < n; i++ {
+		spec := ucih.EngineSpec{Name: []string{"morlock", "turochamp", "sargon", "bernstein"}[r.Intn(4)], Hash: uint(r.Intn(2)), Seed: r.Int63()}
+		e, _ := ucih.Build(ctx, spec)
+		w.Emit(out.M{"op": "session", "engine": spec.Name, "hash": spec.Hash})
+		emit := func(kind, arg string, bad bool, err error) {
+			w.Emit(out.M{"op": "api", "kind": kind, "arg": arg, "bad": proj.B2I(bad), "err": proj.B2I(err != nil), "state": engineState(e)})
+		}
+		emit("start", "", false, nil)
+		k := 4 + r.Intn(4*maxOps)
+		for c := 0; c < k; c++ {
+			b := e.Board()
+			legal, illegal := gen.LegalOf(b)
+			switch x := r.Intn(100); {
+			case x < 10:
+				f := all[r.Intn(len(all))].Fen
+				if r.Intn(2) == 0 {
+					parts := strings.Split(f, " ")
+					parts[4] = fmt.Sprint(r.Intn(60))
+					parts[5] = fmt.Sprint(1 + r.Intn(80))
+					f = strings.Join(parts, " ")
+				}
+				emit("reset", f, false, e.Reset(ctx, f))
+			case x < 13:
+				f := []string{"", "8/8/8/8 w - - 0 1", "not a fen", fen.Initial + " 7"}[r.Intn(4)]
+				emit("reset", f, true, e.Reset(ctx, f))
+			case x < 45:
+				// take back (also at the root, where nothing must change), often several in a row
+				for j := r.Intn(3); j >= 0; j-- {
+					emit("takeback", "", false, e.TakeBack(ctx))
+				}
+			case x < 52 && len(illegal) > 0:
+				// pseudo-legal but not legal
+				m := illegal[r.Intn(len(illegal))]
+				emit("move", moveText(m), false, e.Move(ctx, moveText(m)))
+			case x < 56:
+				t := []string{"e2e5", "a1a1", "h7h8k", "zz", "e7e8q"}[r.Intn(5)]
+				_, perr := board.ParseMove(t)
+				emit("move", t, perr != nil, e.Move(ctx, t))
+			default:
+				if len(legal) == 0 {
+					emit("takeback", "", false, e.TakeBack(ctx))
+					continue
+				}
+				var m board.Move
+				if rev, ok := gen.Reverse(b, legal); ok && r.Intn(3) == 0 {
+					m = rev
+				} else {
+					m = gg.Pick(legal)
+				}
+				emit("move", moveText(m), false, e.Move(ctx, moveText(m)))
+			}
+		}
+	}
 }
